@@ -956,6 +956,13 @@ fn classify(sj: &SdkJob, msg: &str) -> String {
         (_, Some(c)) => format!("consumer:{}:{}", ["single", "group-1-member", "group-2-members"][c.kind as usize], ["next", "offset"][c.strategy as usize]),
         _ => String::new(),
     };
+    // a stall of a `next` consumer is named together with the commit mode and batch size it needs
+    if let (Some(c), true) = (&sj.ccfg, symptom == "owed-message-never-yielded") {
+        if c.strategy == 0 {
+            let mode = ["manual", "when-polling", "when-each", "when-every-2nd", "when-all", "interval-or-each", "disabled"][c.commit as usize];
+            return format!("C20:{setting}:{symptom}:commit={mode}:batch={}", c.batch);
+        }
+    }
     format!("C20:{setting}:{symptom}")
 }
 
